@@ -459,9 +459,15 @@ def rule_sudoku(F, R):
             b = strip(ct['body'])
             neg = False
             while b['k'] == 'Unary' and b['op'] == 'Not': b = strip(b['arg']); neg = not neg
-            if b['k'] == 'Call' and (callee_name(b) or '').endswith('is_whitespace') and neg and name == 'puzzle_input': okf = True
+            if b['k'] == 'Call' and (callee_name(b) or '').split('::')[-1] == 'is_whitespace' and neg and name == 'puzzle_input': okf = True      # the Unicode predicate, not is_ascii_whitespace
     R.count('U:whitespace-filter'); R.obligation(okf, 'U whitespace')
     if not okf: R.violation('sudoku_gen::main / U / whitespace', 'U', 'the puzzle text must be stripped of whitespace (filter(|c| !c.is_whitespace())) before characters are indexed by cell')
+    # the whole puzzle text is read, from either channel: read_to_string on the file and on stdin (read_line would stop at the first row)
+    t_main = c.ithir['sudoku_gen::main']
+    reads = [x for x in walk(t_main['body']) if x['k'] == 'Call' and (callee_name(x) or '').split('::')[-1] in ('read_to_string', 'read_line', 'read', 'read_exact', 'read_until', 'lines', 'read_to_end')]
+    okr = len(reads) >= 2 and all((callee_name(x) or '').split('::')[-1] == 'read_to_string' for x in reads)
+    R.count('U:input-reads', len(reads)); R.obligation(okr, 'U reads')
+    if not okr: R.violation('sudoku_gen::main / U / input', 'U', 'the puzzle text must be read completely (read_to_string) from the input file and from stdin; found %s' % [(callee_name(x) or '').split('::')[-1] for x in reads])
     tail_true = any(s.strip() == 'true' for s in texts)
     R.obligation(tail_true, 'U closing')
     if not tail_true: R.violation('sudoku_gen::main / U / closing conjunct', 'U', 'the conjunction must be closed by `true`')
